@@ -129,6 +129,9 @@ class Model(core.BfsModel):
         P, A, S = range(n_peers), range(n_addrs), range(n_services)
         al: list = []
         al += [("add", p, a) for p in P for a in A]
+        if n_addrs >= 3:
+            # a dual-stack peer: one IPv4 address plus the IPv6 address (ADDRS[2]) in one Peer object
+            al += [("add2", p, a) for p in P for a in (0, 1)]
         al += [("disc", p, a, s) for p in P for a in A for s in [None, *S]]
         al += [("svc", p, s) for p in P for s in S]
         al += [("rm", p) for p in P]
@@ -168,6 +171,12 @@ class Model(core.BfsModel):
             _, p, a = ev
             net.add_verified_peer(self.mkpeer(p, a))
             ref.add_verified(p, {ref.cls(a): a})
+        elif kind == "add2":
+            _, p, a = ev
+            peer = self.mkpeer(p, a)
+            peer.add_address(ADDRS[2])
+            net.add_verified_peer(peer)
+            ref.add_verified(p, {ref.cls(a): a, ref.cls(2): 2})
         elif kind == "disc":
             _, p, a, s = ev
             h = self.home(p)
@@ -319,7 +328,13 @@ class Model(core.BfsModel):
         # snapshot -> fresh graph -> exactly the verified peers' (preferred) addresses are walkable
         fresh = Network()
         fresh.load_snapshot(net.snapshot())
-        want_snap = {x.address for x in net.verified_peers if x.address != ("0.0.0.0", 0)}
+        # the preferred address per peer, computed from the reference (IPv6 before IPv4: Peer.INTERFACE_ORDER), not
+        # from Peer.address - a stale preferred address in the implementation must show up here
+        want_snap = set()
+        for p_, ad in ref.verified.items():
+            pref = ad.get("UDPv6Address", ad.get("UDPv4Address"))
+            if pref is not None:
+                want_snap.add(ADDRS[pref])
         got_snap = set(fresh.get_walkable_addresses())
         if got_snap != want_snap:
             v.append((f"snapshot|after:{last}", f"snapshot reload walkable {sorted(got_snap)} != {sorted(want_snap)}"))
@@ -335,11 +350,13 @@ def configs(ctx: core.Ctx) -> list[tuple[Model, int]]:
             (Model(2, 2, 1, ctx.seed, bl_addrs=(0,)), 5),
             (Model(2, 2, 1, ctx.seed, bl_peers=(0,)), 5),
             (Model(3, 3, 1, ctx.seed, bl_addrs=(2,), bl_peers=(1,)), 4),
+            (Model(2, 3, 1, ctx.seed, bl_addrs=(0,)), 5),
         ]
     return [
         (Model(2, 2, 1, ctx.seed), 5),
         (Model(3, 3, 2, ctx.seed), 3),
         (Model(2, 2, 1, ctx.seed, bl_addrs=(0,), bl_peers=(1,)), 4),
+        (Model(2, 3, 1, ctx.seed, bl_addrs=(0,)), 3),
     ]
 
 
